@@ -49,6 +49,9 @@ class RuleResult:
         self.findings.append(finding)
 
     def require(self, n, floor, what):
+        # `floor` is the count confirmed by reading the pinned tree; a refactoring that merges duplicated code legitimately
+        # lowers it, so the armed floor leaves a third of slack - what it guards against is a rule matching (almost) nothing
+        floor = max(1, (floor * 2) // 3)
         if n < floor:
             raise AnalysisError('%s: only %d %s found, expected at least %d - the rule would pass vacuously'
                                 % (self.rule, n, what, floor))
